@@ -127,8 +127,8 @@ def build_lanelet(s):
 
 def build_sign(s):
     elems = [TrafficSignElement(TrafficSignIDGermany[e["id"]], list(e.get("vals", []))) for e in s.get("elems", [])]
-    return TrafficSign(int(s["id"]), elems, set(s.get("first", [])), arr(s.get("pos", [0.0, 0.0])),
-                       bool(s.get("virtual", False)))
+    pos = None if ("pos" in s and s["pos"] is None) else arr(s.get("pos", [0.0, 0.0]))  # None: no position given
+    return TrafficSign(int(s["id"]), elems, set(s.get("first", [])), pos, bool(s.get("virtual", False)))
 
 
 def build_cycle(c, offset=0, active=True):
@@ -140,7 +140,8 @@ def build_light(s):
     cycle = None
     if s.get("cycle") is not None:
         cycle = build_cycle(s["cycle"], s.get("offset", 0), s.get("cycle_active", True))
-    return TrafficLight(int(s["id"]), arr(s.get("pos", [0.0, 0.0])), cycle,
+    pos = None if ("pos" in s and s["pos"] is None) else arr(s.get("pos", [0.0, 0.0]))
+    return TrafficLight(int(s["id"]), pos, cycle,
                         active=bool(s.get("active", True)),
                         direction=TrafficLightDirection[s.get("direction", "ALL")])
 
